@@ -35,10 +35,20 @@ def found_of(n):
             if d is not None:
                 _depth[0] += 1
                 try:
-                    return found_of(d)
+                    fv_ = found_of(d)
                 finally:
                     _depth[0] -= 1
+                if fv_ is not None:
+                    w_ = ex.snapshot_stale(s.fn, s.decl_id, s)
+                    if w_ is not None:
+                        # the flag was copied before the loop that keeps assigning X: at this use it no longer is found(X)
+                        STALE.append((s, w_, fv_))
+                        return None
+                return fv_
     return None
+
+
+STALE = []
 
 
 def weight_of(n):
@@ -161,9 +171,16 @@ def min_update_contract(fn, assign, acc, x):
         return None
     assigns = assign if isinstance(assign, (list, tuple)) else [assign]
     pc = ex.FALSE
+    del STALE[:]
     for a_ in assigns:
         pc = ex.f_or(pc, guards_formula(cfg, a_, atomize))
     atoms = ex.f_atoms(pc)
+    stale = [t_ for t_ in STALE if t_[2] == acc]
+    if stale:
+        use, wr, _x = stale[0]
+        return 'violation', ('the update condition tests `%s`, a copy of the accumulator\'s found flag taken before the loop (the accumulator is assigned at line %d inside it): '
+                             'once a candidate has been accepted the copy still says "nothing found", so every later found candidate replaces the running best '
+                             'whatever its weight' % (use.text(20), wr.line))
     bad = [a for a in atoms if isinstance(a, tuple) and a[0] == 'acc-opaque']
     if bad:
         n = fn.nodes.get(bad[0][1])
